@@ -478,12 +478,18 @@ def _value_for(level, key, state, pad):
         return pad[0] + base + pad[1]
     if state == "padded-nondefault":
         return pad[0] + NONDEFAULT.get(key, "9.000=9") + pad[1]
+    if state == "near-default" and not dflt:
+        # for a field whose default is empty: list punctuation without any entry is still a value
+        i = PADS.index(pad) % 3 if pad in PADS else 0
+        return [",", ", ", ",\n"][i]
     if state == "near-default" and dflt:
-        # differs from the default only slightly: blanks inside it, one character more or less, other letter case
-        i = PADS.index(pad) % 5 if pad in PADS else 0
+        # differs from the default only slightly: blanks inside it, one character more or less, other letter case, a
+        # stray list separator before or after it
+        i = PADS.index(pad) % 8 if pad in PADS else 0
         eq = dflt.find("=")
         cut = eq if eq > 0 else 1
-        v = [dflt[:cut] + " " + dflt[cut:], dflt[: cut + 1] + " " + dflt[cut + 1 :], dflt + "0", dflt[:-1], dflt.swapcase()][i]
+        v = [dflt[:cut] + " " + dflt[cut:], dflt[: cut + 1] + " " + dflt[cut + 1 :], dflt + "0", dflt[:-1], dflt.swapcase(),
+             dflt + ",", dflt + ",\n", "," + dflt][i]
         if v.strip() != dflt:
             return v
         return dflt + "0"
